@@ -38,6 +38,67 @@ def kind_tests(f, variant):
     return out
 
 
+def d_accept(chk, F):
+    """Without front matter (old_style_metadata = true) the metadata-only scanner reports EVERY `>>` entry; so the full parser's
+    acceptance test of a `>>` line (the filter in parse_block) may answer `false` only where old_style_metadata is known to
+    be false: each value it returns is the literal true, old_style_metadata itself, or lies under the false outcome of a
+    test of old_style_metadata."""
+    from cfgq import bool_edges
+    def reads_osm(g):
+        names = {(l.get("name") or "") for l in g.locals[1:g.argc + 1]} | {u.get("name", "") for u in g.upvars}
+        return "old_style_metadata" in names
+    # the predicate itself: a bool-returning function / closure of parse_block's region that looks at old_style_metadata
+    cands = [g for g in F.region_funcs("cooklang::parser::parse_block")
+             if g.locals and norm(g.locals[0].get("ty", "")) == "bool" and reads_osm(g)]
+    if len(cands) != 1:
+        chk.fail("anchor-missing", "parse_block acceptance test", "", f"anchor-missing: expected one bool-valued acceptance test in parse_block's region that reads old_style_metadata, found {len(cands)}")
+        return
+    g = cands[0]
+    def is_osm(e):
+        t = full(e)
+        return "old_style_metadata" in t and "extension" not in t
+    # false edges of every branch on old_style_metadata
+    osm_false = []
+    for b, t in g.iter_terms("switch"):
+        if norm(t.get("dty", "")) == "bool" and is_osm(resolve(g, t["discr"])):
+            zero = [x[1] for x in t["targets"] if x[0] == "0"]
+            if zero:
+                osm_false.append((b, zero[0]))
+    rets = [(i, st) for i, j, st in g.iter_stmts() if st["k"] == "assign" and st["place"]["l"] == 0 and not st["place"]["p"]]
+    rets += [(t.get("target", b), {"rv": None, "call": t, "line": t.get("line")}) for b, t in g.calls() if t["dest"]["l"] == 0 and not t["dest"]["p"]]
+    chk.floor("C14.D-accept", "return values of the acceptance test", len(rets), 1, f"{g.file}:{g.line}")
+    for i, st in rets:
+        rv = st.get("rv")
+        ok = False
+        what = "a call result"
+        if rv is not None and rv["k"] == "use":
+            c = rv["op"].get("const")
+            if c is not None and c.get("bits") == "1":
+                ok, what = True, "true"
+            elif c is not None:
+                what = "false"
+            else:
+                e = resolve(g, rv["op"])
+                what = full(e)[:60]
+                ok = is_osm(e)
+        elif rv is not None:
+            what = full(resolve_rvalue_safe(g, rv, i))[:60]
+        if not ok:
+            ok = any(g.edge_dominates(e_, i) for e_ in osm_false)
+        chk.expect(ok, "C14.D-accept", f"parse_block|returns {what[:30]}", f"{g.file}:{st.get('line')}",
+                   f"the full parser's acceptance test of a `>>` line can answer `{what}` while old_style_metadata is true: the metadata-only parse keeps every "
+                   "entry in that case, so the two parses disagree (e.g. a bracketed key with MODES off)",
+                   sample=f"{g.file}:{st.get('line')}: returns {what[:40]}")
+
+
+def resolve_rvalue_safe(g, rv, i):
+    from flow import resolve_rvalue
+    try:
+        return resolve_rvalue(g, rv, 0, frozenset(), i)
+    except Exception:
+        return ("unknown",)
+
+
 def d_line_start(chk, F, f):
     """Both scanners must agree on what 'a `>>` at the start of a line' is. The full scanner cuts lines at Newline
     TOKENS (pull_line) and tests the first token of each line (is_single_line_marker); the metadata-only scanner must
@@ -222,6 +283,7 @@ def run(chk: harness.Check):
                "an entry parsed by metadata_entry in the metadata-only scanner can be dropped before it is emitted: the full parse would still see it",
                sample=f"{f.file}:{f.line}: every Some(entry) of metadata_entry is passed to bp.event")
     d_line_start(chk, F, f)
+    d_accept(chk, F)
     # the metadata scanner handles front matter like the full one: the queued front matter event is popped first
     nm = [g for g in F.funcs.values() if g.key.endswith("::next_metadata") and not g.is_closure()]
     nx = [g for g in F.funcs.values() if g.key == "cooklang::<parser::PullParser<T> as std::iter::Iterator>::next"]
